@@ -741,7 +741,8 @@ def handle (line : String) : String :=
   | "N" :: rest => runN rest
   | "F" :: rest => runF rest
   | "S" :: rest => runS rest
-  | "X" :: rest => runX true rest
+  | "X" :: rest => runX false rest      -- since 29d16ec Map / Set objects go through get-then-put like every object
+  | "XOLD" :: rest => runX true rest   -- the mechanism before 29d16ec (regression model)
   | "XS" :: rest => runX false rest
   | "M" :: rest => runM rest
   | "C" :: rest => runC rest
